@@ -13,7 +13,7 @@
    elements of producer i.  The multi-producer queue is abstracted as an atomic FIFO; that
    abstraction is licensed by property C30 (coq/C30), not proved here. *)
 From Coq Require Import ZArith List Bool.
-From F8 Require Import C28.Spec_C28 C28.LoggerQ C28.LoggerQProofs.
+From F8 Require Import C28.Spec_C28 C28.LoggerQ C28.LoggerQProofs C28.OracleLink.
 Import ListNotations.
 
 (* Order: what is written of one producer is, in order, an initial part of the lines it
@@ -95,6 +95,26 @@ Theorem c28_empty_line_refuted :
     o_stopped o = true /\ o_file o = [(1%nat, [65%Z])] /\ file_complete m ps o = false.
 Proof. exact c28_empty_line_refuted_lemma. Qed.
 Print Assumptions c28_empty_line_refuted.
+
+(* The oracle applied to the real log file, on the model: when the texts of the calls at enabled
+   levels are pairwise distinct (in the correspondence runs every text carries producer and call
+   number), its soundness half (sequence numbers 1,2,3...; every file line is the next unwritten
+   line of some producer: order, exactly-once, levels) holds after EVERY schedule ... *)
+Theorem c28_oracle_sound : forall m ps sched,
+  NoDup (concat (map (must_write m) ps)) ->
+  file_sound m ps (observe (run sched (init m ps))) = true.
+Proof. exact c28_oracle_sound_lemma. Qed.
+Print Assumptions c28_oracle_sound.
+
+(* ... and its completeness half (stop() has returned and nothing accepted is missing) holds under
+   the hypothesis of c28_all_written_partial. *)
+Theorem c28_oracle_complete_partial : forall m ps s1 s2,
+  NoDup (concat (map (must_write m) ps)) ->
+  quiesced (run s1 (init m ps)) = true ->
+  stopper (run s2 (run s1 (init m ps))) = SDone ->
+  file_complete m ps (observe (run s2 (run s1 (init m ps)))) = true.
+Proof. exact c28_oracle_complete_partial_lemma. Qed.
+Print Assumptions c28_oracle_complete_partial.
 
 (* Non-vacuity of c28_all_written_partial: two producers, five calls (one at a disabled level),
    queue drained, then stop(): the hypothesis holds and the four accepted lines are in the file. *)
